@@ -40,10 +40,19 @@ _m(
         "value exactly as without a split)",
         "the invariance claim only relates losses at different batch sizes to each other: a change that rescales the "
         "full-batch and per-batch losses alike (e.g. a per-pattern mean instead of a total) is outside the property",
-        "tolerances (relative to |full-batch loss| / to the largest component of the full-batch gradient of the same "
-        "parameter): float32 configuration 1e-5 / 3e-5, float64 configuration 1e-11 / 1e-10; clean-tree maxima are "
-        "reported in coverage.extra as fractions of the tolerance; determinism is compared bit-for-bit (float.hex), "
-        "valid because the runner pins torch to one thread",
+        "tolerances: loss relative to |full-batch loss| (Poisson: to max(|loss|, 0.5 per pattern), a guard against sign "
+        "cancellation; with the generator's data every term is positive and the loss is 1.8-2.4 per pattern), gradients "
+        "relative to the largest component of the full-batch gradient of the same parameter tensor.  float64 "
+        "configuration: 1e-10 / 1e-8 (clean tree <= 3.8e-16 / 1.5e-14 over ~1200 cases).  float32 configuration: 1e-4 / "
+        "1e-3 object and probe / 1e-2 descan and scan positions (clean tree <= 2.4e-7 / 4.5e-6 / 6.1e-5; heavy-tailed "
+        "because batch shapes change FFT/reduction paths and 1/sqrt(I+1e-9), 1/(I+1e-6) weights amplify last-bit "
+        "differences at dark pixels - the float32 full-batch gradient is itself 5e-5 from the float64 one in the worst "
+        "case, kept as a passing replay).  Batch-fraction scaling errors are >= 1/2.  Determinism is compared bit-for-bit "
+        "(float.hex), valid because the runner pins torch to one thread",
+        "every invariance run starts from reconstruct(reset=True); the full batch is run twice first and must agree "
+        "bit-for-bit (the property's own reset claim), otherwise that is what is reported",
+        "reconstruct(batch_size=None) keeps the instance's current batch size (initially all patterns): the invariance "
+        "kind always passes explicit sizes, the determinism kind passes the same value in every call",
         "pattern visits inside reconstruct are observed by wrapping dset.forward and step_schedulers of the instance "
         "with pass-through recorders (no behavioural change)",
     ],
